@@ -165,7 +165,7 @@ pub fn gen(ctx: &mut Ctx, idx: u64) -> RunSpec {
             stored_faults: g.faults.clone(),
             delivery: Delivery::perfect(),
             ops: if g.light { light_ops() } else { vec![Op::Sweep] },
-            note: format!("sweep site {} of {}", k / 2, sites.len()),
+            note: if g.scaling { format!("scaling: site {} of {} at 1/4, 1/2 and 1/1 of its generated items", k / 2, sites.len()) } else { format!("sweep site {} of {}", k / 2, sites.len()) },
         };
     }
     // ---- seeded multi-fault search ----
@@ -226,7 +226,68 @@ pub fn gen(ctx: &mut Ctx, idx: u64) -> RunSpec {
     RunSpec { property: ID.into(), file: fx.name.clone(), inner, entry, stored_faults: faults, delivery, ops: vec![Op::Sweep], note: format!("seeded #{}", j) }
 }
 
+/// A scaling run: the same amplified input with a quarter, a half and all of its generated
+/// items, in this order and in one process.  "Time proportional to the input" means the last
+/// costs about four times the first; sixteen times is quadratic.  The verdict needs a
+/// measurable full-size run (>= 100 ms of CPU) and a ratio above 9; the driver confirms it by
+/// two more isolated executions.  The result reported is that of the full-size run.
+fn exec_scaling(ctx: &mut Ctx, spec: &RunSpec, idx: u64) -> RunResult {
+    let mut times: Vec<i64> = Vec::new();
+    let mut last = RunResult::default();
+    for div in [4u32, 2, 1] {
+        let mut s = spec.clone();
+        s.note = format!("scaled 1/{}", div);
+        for f in s.stored_faults.iter_mut() {
+            if let Some(Edit::Repeat { count, start, step, .. }) = f.edit.as_mut() {
+                if *count >= 8000 {
+                    // descending counters start at the number of items
+                    if *step < 0 && *start == *count as i64 {
+                        *start = (*count / div) as i64;
+                    }
+                    *count /= div;
+                }
+            }
+        }
+        let r = exec_spec(ctx, &s, idx);
+        if !r.violations.is_empty() || !r.outcome.starts_with(&format!("{}:opened", spec.entry.name())) {
+            // not a measurement (the input does not open through this entry, or a budget verdict
+            // already covers it): report the run as it is, with the original spec
+            let mut r = r;
+            if r.spec.is_some() {
+                r.spec = Some(spec.clone());
+            }
+            return r;
+        }
+        times.push(r.cpu_us as i64);
+        last = r;
+    }
+    let (t1, t4) = (times[0].max(1000), times[2]);
+    if t4 >= 100_000 && t4 as f64 / t1 as f64 > 9.0 {
+        let kind = spec
+            .stored_faults
+            .iter()
+            .rev()
+            .find(|f| matches!(&f.edit, Some(Edit::Repeat { count, .. }) if *count >= 8000))
+            .map(|f| erase_numbers(&f.why))
+            .unwrap_or_default();
+        last.violations.push(Violation {
+            class: "superlinear".into(),
+            origin: kind,
+            client: String::new(),
+            msg: "CPU time grows faster than the input".into(),
+            op: -1,
+            detail: format!("CPU time with 1/4, 1/2 and all of the generated items: {} us, {} us, {} us (ratio {:.1}; 4 is linear, 16 quadratic)", times[0], times[1], times[2], t4 as f64 / t1 as f64),
+        });
+        last.spec = Some(spec.clone());
+    }
+    last.phase = "scaling".into();
+    last
+}
+
 pub fn exec_spec(ctx: &mut Ctx, spec: &RunSpec, idx: u64) -> RunResult {
+    if spec.note.starts_with("scaling") {
+        return exec_scaling(ctx, spec, idx);
+    }
     let fx = match crate::corpus::find(&ctx.corpus, &spec.file) {
         Some(f) => f.clone(),
         None => return RunResult { idx, outcome: format!("harness: unknown file {}", spec.file), ..Default::default() },
